@@ -86,6 +86,7 @@
 #include "quill/LogMacros.h"
 #include "quill/Logger.h"
 #include "quill/sinks/Sink.h"
+#include "quill/filters/Filter.h"
 #undef atomic
 
 // -DHSTOP_DROP: a small bounded DROPPING queue (spec/CounterRA.tla): `X logbig` logs a statement of which two fit; a third is
@@ -108,6 +109,19 @@ using VLogger = quill::LoggerImpl<FO>;
 
 static std::atomic<long> g_delivered{0}, g_delivered_y{0};
 static shim::Clock g_wclk;
+static std::mutex g_wr_mx;
+static std::vector<long> g_written;          // serial numbers of the "X c<k> <n>" statements the sink received
+// a filter that rejects the statements of one class ("X c<k> ...")
+struct ClassFilter : quill::Filter
+{
+  std::string tag;
+  explicit ClassFilter(int k) : quill::Filter("class" + std::to_string(k)), tag("X c" + std::to_string(k) + " ") {}
+  bool filter(quill::MacroMetadata const*, uint64_t, std::string_view, std::string_view, std::string_view, quill::LogLevel,
+              std::string_view msg, std::string_view) noexcept override
+  {
+    return msg.substr(0, tag.size()) != tag;
+  }
+};
 struct CountSink : quill::Sink
 {
   void write_log(quill::MacroMetadata const*, uint64_t, std::string_view, std::string_view, std::string const&, std::string_view,
@@ -124,6 +138,11 @@ struct CountSink : quill::Sink
       }
     }
     if (!msg.empty() && msg[0] == 'Y') g_delivered_y.fetch_add(1);
+    if (msg.size() > 4 && msg.substr(0, 3) == "X c")
+    {
+      std::lock_guard<std::mutex> l(g_wr_mx);
+      g_written.push_back(std::strtol(std::string(msg.substr(5)).c_str(), nullptr, 10));
+    }
     g_delivered.fetch_add(1);
   }
   void flush_sink() override {}
@@ -172,6 +191,8 @@ struct Worker
   int cmd = 0;            // 0 none, 1 warm-up (set-up mode), 2 log, 3 exit the thread, 4 flush_log(), 5 Backend::stop()
   bool ack = true;        // the last command has completed
   bool flush_visible = false;
+  int karg = 0;           // argument of the commands 7 (add the class-k filter to the sink) and 8 (log a class-k statement)
+  quill::Sink* sink = nullptr;
   long committed = 0;
   quill::detail::ThreadContext* ctx = nullptr;
   std::thread th;
@@ -195,6 +216,19 @@ struct Worker
         {
           shim::g_thr = logical;
           LOG_INFO(logger, "X big {}", std::string(150, 'x'));
+          shim::g_thr = -1;
+          ++committed;
+        }
+        else if (c == 7)
+        {
+          shim::g_thr = logical;
+          sink->add_filter(std::make_unique<ClassFilter>(karg));
+          shim::g_thr = -1;
+        }
+        else if (c == 8)
+        {
+          shim::g_thr = logical;
+          LOG_INFO(logger, "X c{} {}", karg, committed);
           shim::g_thr = -1;
           ++committed;
         }
@@ -245,6 +279,18 @@ int main(int argc, char** argv)
   Y.logical = 2; Y.tag = 'Y';
   Z[0].logical = 3; Z[0].tag = 'Z';
   Z[1].logical = 4; Z[1].tag = 'Z';
+  auto written_json = []
+  {
+    std::lock_guard<std::mutex> l(g_wr_mx);
+    std::string o = "[";
+    for (size_t i = 0; i < g_written.size(); ++i) o += (i ? "," : "") + std::to_string(g_written[i]);
+    return o + "]";
+  };
+  auto filters_locked = [&]
+  {
+    std::lock_guard<std::recursive_mutex> lk(shim::g_mx);
+    return X.sink && X.sink->_global_filters_lock._flag.h.back().val == quill::detail::Spinlock::State::Locked;
+  };
   auto cache_size = [] { return quill::detail::BackendManager::instance()._backend_worker._active_thread_contexts_cache.size(); };
   auto state_json = [&](int t)
   {
@@ -252,7 +298,8 @@ int main(int argc, char** argv)
     bool parked;
     { std::lock_guard<std::mutex> l(s_mx); parked = s_parked_at[t]; w = parked ? s_where[t] : std::string{}; }
     return "\"t\":" + std::to_string(t) + ",\"at\":\"" + w + "\",\"cache\":" + std::to_string(cache_size()) + ",\"delivered\":" +
-      std::to_string(g_delivered.load()) + ",\"reported\":" + std::to_string(g_reported.load());
+      std::to_string(g_delivered.load()) + ",\"reported\":" + std::to_string(g_reported.load()) + ",\"written\":" + written_json() +
+      ",\"flock\":" + (filters_locked() ? "true" : "false");
   };
   auto wait_thread = [&](int t)
   {
@@ -288,6 +335,7 @@ int main(int argc, char** argv)
       };
       quill::Backend::start(bo);
       auto sink = VFrontend::create_or_get_sink<CountSink>("count");
+      X.sink = sink.get();
       logger = VFrontend::create_or_get_logger("L", std::move(sink));
       // warm-up in set-up mode: both thread contexts exist and are in the backend's cache (X's first), the queues are empty again
       X.start(logger);
@@ -306,7 +354,8 @@ int main(int argc, char** argv)
         shim::g_names[&qy._atomic_writer_pos] = "WY";
         shim::g_names[&Y.ctx->_valid] = "V";
         shim::g_names[&quill::detail::ThreadContextManager::instance()._new_thread_context_flag] = "F";
-        shim::g_names[&X.ctx->_failure_counter] = "C";        // named for its memory orders only: never scripted, reads the newest message
+        shim::g_names[&X.ctx->_failure_counter] = "C";
+        shim::g_names[&X.sink->_new_filter] = "NF";        // named for its memory orders only: never scripted, reads the newest message
       }
       // arm: from now on B parks at the head of its loop
       { std::lock_guard<std::mutex> l(s_mx); s_armed = true; s_policy = {"1:R:load"}; }
@@ -328,6 +377,7 @@ int main(int argc, char** argv)
         collapse(qy._atomic_writer_pos);
         collapse(quill::detail::ThreadContextManager::instance()._new_thread_context_flag);
         collapse(X.ctx->_failure_counter);
+        collapse(X.sink->_new_filter);
         g_wclk = shim::Clock{};
       }
       g_delivered.store(0);
@@ -341,6 +391,14 @@ int main(int argc, char** argv)
       {
         X.run(2);
         emit("{\"e\":\"committed\",\"n\":" + std::to_string(X.committed) + "}");
+      }
+      else if (op == "addfilter" || op == "logc")
+      {
+        ss >> X.karg;
+        X.post(op == "addfilter" ? 7 : 8);
+        wait_thread(0);
+        emit(std::string("{\"e\":\"") + (op == "addfilter" ? "xadd" : "xlogc") + "\",\"k\":" + std::to_string(X.karg) + ",\"n\":" +
+             std::to_string(X.committed - (op == "logc" ? 1 : 0)) + "," + state_json(0) + "}");
       }
       else if (op == "logbig")
       {
@@ -469,6 +527,33 @@ int main(int argc, char** argv)
       s_cv.notify_all();
       wait_thread(t);
       emit("{\"e\":\"sstep\",\"was\":\"" + where + "\"," + state_json(t) + "}");
+    }
+    else if (c == "note")
+    {
+      std::string ev;
+      long k = 0;
+      ss >> ev >> k;
+      emit("{\"e\":\"" + ev + "\",\"k\":" + std::to_string(k) + "}");
+    }
+    else if (c == "A")
+    {
+      // advance logical thread t (the backend) past its loop-head parks: until it parks at another access, or has gone round idle
+      int t = 1;
+      ss >> t;
+      int rounds = 0;
+      while (rounds < 3)
+      {
+        std::string where;
+        bool parked;
+        { std::lock_guard<std::mutex> l(s_mx); parked = s_parked_at[t]; where = s_where[t]; }
+        if (!parked || where != "R:load") break;
+        { std::lock_guard<std::recursive_mutex> lk(shim::g_mx); shim::g_choices.clear(); shim::g_sticky.clear(); }
+        { std::lock_guard<std::mutex> l(s_mx); s_go_t[t] = true; }
+        s_cv.notify_all();
+        wait_thread(t);
+        ++rounds;
+      }
+      emit("{\"e\":\"adv\"," + state_json(t) + "}");
     }
     else if (c == "drain")
     {
